@@ -7,7 +7,7 @@
    delimited by conv_bos_ok and refuted outside it.  The functional part of the wrappers (result = reference conversion)
    is covered by the correspondence (models in ModConv.v vs implementation vs Python/C library references). *)
 From Coq Require Import List ZArith Lia Bool.
-From SC Require Import Base Cfg Comb CombProofs Utf8 ModConv ProofsConv PropDefs.
+From SC Require Import Base Wp Cfg Comb CombProofs Utf8 ModConv ProofsConv PropDefs.
 From SC.Gen Require Import Consts.
 Local Open Scope Z_scope.
 Theorem C15_decode_encode : forall cp, enc_valid cp = true -> dec_list (utf8_enc cp) = Some (cp, enc_len cp).
@@ -35,6 +35,19 @@ Theorem C15_wctomb_s_stores : forall c utf8 retvalp dest dmax wc destbos, 0 <= d
   C01_holds (convP dest dmax retvalp 4) (wctomb_s c utf8 retvalp dest dmax wc destbos).
 Proof. intros. apply C01_from_writes. exact (wctomb_s_writes c utf8 retvalp dest dmax wc destbos H). Qed.
 Print Assumptions C15_wctomb_s_stores.
+(* functional: wcrtomb_s stores exactly the encoding of the character (UTF-8 per Utf8.v in C.UTF-8, one byte in C), reports its
+   length, and nulls the rest of dest with null-slack; with C15_decode_encode this is the single-character round trip *)
+Theorem C15_wcrtomb_s_delivers_the_encoding : forall c utf8 retvalp dest dmax wc ps m bs,
+  retvalp <> 0 -> ps <> 0 -> dest <> 0 -> 1 <= dmax <= rmax_wstr c -> dmax < 18446744073709551616 -> wc_enc utf8 wc = Some bs ->
+  Z.of_nat (length bs) < dmax -> Forall (fun b => 0 <= b < 256) bs ->
+  (retvalp + 8 <= dest \/ dest + dmax <= retvalp) ->
+  Wp.wp (wcrtomb_s c utf8 retvalp dest dmax wc ps BOS_UNKNOWN) m (fun r m' =>
+     r = EOK /\ load m' 8 retvalp = Z.of_nat (length bs) /\
+     (forall i, (i < length bs)%nat -> m' (dest + Z.of_nat i) = nth i bs 0) /\
+     (null_slack c = true -> forall x, dest + Z.of_nat (length bs) <= x < dest + dmax -> m' x = 0) /\
+     (forall x, ~ (dest <= x < dest + dmax) -> ~ (retvalp <= x < retvalp + 8) -> m' x = m x)).
+Proof. exact wcrtomb_s_spec. Qed.
+Print Assumptions C15_wcrtomb_s_delivers_the_encoding.
 (* known finding conv-known-bos-len-clears-object: dmax elements fit the known object, len elements do not: the failing exit clears the object *)
 Theorem C15_mbstowcs_s_bos_len_refuted : ~ writes_in (convP 1000 (2 * 4) 5000 8) (mbstowcs_s cfg_default true 5000 1000 2 3000 20 40).
 Proof. exact mbstowcs_s_bos_len_refuted. Qed.
